@@ -276,6 +276,11 @@ C08_Step(s, e) ==
               /\ PodCreates(e) = {}
         /\ (role = "canary" /\ CanaryPausedIn(d, r) /\ ~d.cUnpaused) =>
               (NT(<<"C08", "cpaused">>) /\ PodCreates(e) = {})
+        \* "a canary resumes on unpause": with the unpause annotation (and no pause annotation) a canary that is not failed does not
+        \* end a sync paused, whatever its pods look like (unpause overrides pausing, never failing)
+        /\ (role = "canary" /\ d.cUnpaused /\ ~d.cPaused /\ HasRS(e.state, r.id) /\ AllOK(StatusWrites(e, "ERS")) /\ FullSync(e)) =>
+              LET r2 == RSOf(e.state, r.id) IN
+                (~r2.conds.CanaryFailed.true) => (NT(<<"C08", "unpaused">>) /\ ~r2.conds.CanaryPaused.true)
         \* a sync that itself ends paused or failed creates nothing (shared with C06)
         /\ (role = "canary" /\ HasRS(e.state, r.id) /\ AllOK(StatusWrites(e, "ERS")) /\ FullSync(e)) =>
               LET r2 == RSOf(e.state, r.id) IN
@@ -630,7 +635,7 @@ C19_Step(s, e) == C19_Cmd(s, e) /\ C14_EDS(s, e) /\ C05_Step(s, e) /\ C07_Step(s
 (* instants                                                                                                        *)
 
 FinalAbs(s) ==
-    [ pods |-> { <<p.ns, p.node, p.hash, p.ready, p.phase, p.res>> : p \in { q \in Pods(s) : ~q.term } },
+    [ pods |-> { <<p.ns, p.node, p.hash, p.ready, p.phase, p.res, p.clabel>> : p \in { q \in Pods(s) : ~q.term } },
       rs   |-> { <<r.ns, r.tmpl, r.status, r.desired, r.current, r.ready, r.available>> : r \in RSs(s) },
       eds  |-> { <<d.key, d.tmpl, d.hasCanary, CNodes(d), d.state, d.desired, d.current, d.ready, d.available, d.upToDate,
                    IF d.active > 0 /\ HasRS(s, d.active) THEN RSOf(s, d.active).tmpl ELSE "">> : d \in EDSs(s) } ]
